@@ -117,15 +117,28 @@ def main():
     def incremental():
         t2 = tr.Trace(trace_files=files, trace_dir=d)
         rk = sorted(files)
+        views_ok = []
+
+        def views():
+            # the cached Series views, read after every step: id -> string and string -> id are those of the table
+            st = t2.symbol_table
+            tab = list(st.get_sym_table())
+            ser = st.get_sym_table_series()
+            views_ok.append(list(ser.index) == list(range(len(tab))) and list(ser) == tab
+                            and st.get_symbol_names(list(range(len(tab)))) == dict(enumerate(tab))
+                            and st.get_sym_index_series().to_dict() == {s_: i for i, s_ in enumerate(tab)})
         t2.parse_single_rank(rk[0])
+        views()
         snap = list(t2.symbol_table.get_sym_table())
         steps_ok = True
         if len(rk) > 1:
             t2.parse_multiple_ranks(rk[1:2], use_multiprocessing=False)
+            views()
             steps_ok = steps_ok and list(t2.symbol_table.get_sym_table())[:len(snap)] == snap
             snap = list(t2.symbol_table.get_sym_table())
         if len(rk) > 2:
             t2.parse_multiple_ranks(rk[2:], use_multiprocessing=use_mp)
+            views()
             steps_ok = steps_ok and list(t2.symbol_table.get_sym_table())[:len(snap)] == snap
         sy = t2.symbol_table.get_sym_table()
         rows = {}
@@ -133,8 +146,25 @@ def main():
             df = t2.traces[r]
             rows[r] = sorted([int(a), sy[int(b)] if 0 <= int(b) < len(sy) else "<id out of range>", sy[int(c)] if 0 <= int(c) < len(sy) else "<id out of range>"]
                              for a, b, c in zip(df["index"], df["name"], df["cat"]))
-        return {"ids_stable": steps_ok, "rows": rows}
+        return {"ids_stable": steps_ok, "rows": rows, "views_ok": all(views_ok)}
     tryit("incremental", incremental)
+    # two further rank numbers given the file of an existing rank (a rank-to-file map may name one file twice): each of them loads as that
+    # file's own rows, whichever way the files are parsed
+    def same_file_twice():
+        rk = sorted(files)
+        src = rk[-1]
+        f3 = {k: files[k] for k in keys}
+        f3[max(rk) + 1] = files[src]
+        f3[max(rk) + 2] = files[rk[0]]
+        t3 = tr.Trace(trace_files=f3, trace_dir=d)
+        t3.load_traces(use_multiprocessing=use_mp)
+        sy = t3.symbol_table.get_sym_table()
+        def rows_of(r):
+            df = t3.get_trace(r)
+            return sorted([int(a), sy[int(b)] if 0 <= int(b) < len(sy) else "<id out of range>", sy[int(c)] if 0 <= int(c) < len(sy) else "<id out of range>"]
+                          for a, b, c in zip(df["index"], df["name"], df["cat"]))
+        return {"rows": {r: rows_of(r) for r in rk}, "copies": {src: rows_of(max(rk) + 1), rk[0]: rows_of(max(rk) + 2)}}
+    tryit("same_file_twice", same_file_twice)
     print("META_RESULT " + json.dumps(out, sort_keys=True))
 
 
